@@ -408,6 +408,112 @@ theorem find_setInst (l : List Inst) (h : Nat) (f : Inst → Inst) (i : Inst)
       have := ih hfind
       simp [hah, this]
 
+
+/-! ### every stored instance other than the running one is stopped or decided -/
+
+theorem mem_insertAt (l : List Inst) (k : Nat) (x y : Inst) (h : y ∈ insertAt l k x) : y ∈ l ∨ y = x := by
+  simp only [insertAt, List.mem_append, List.mem_cons] at h
+  rcases h with h | h | h
+  · exact Or.inl (List.mem_of_mem_take h)
+  · exact Or.inr h
+  · exact Or.inl (List.mem_of_mem_drop h)
+
+theorem mem_addNew (cap : Nat) (l : List Inst) (x y : Inst) (h : y ∈ addNew cap l x) : y ∈ l ∨ y = x := by
+  unfold addNew at h
+  simp only at h
+  split at h
+  · split at h
+    · simp only [List.mem_append, List.mem_singleton] at h
+      exact h
+    · exact Or.inl h
+  · split at h
+    · exact mem_insertAt l _ x y (List.mem_of_mem_take h)
+    · exact mem_insertAt l _ x y h
+
+theorem mem_setInst (l : List Inst) (h : Nat) (f : Inst → Inst) (y : Inst) (hy : y ∈ setInst l h f) :
+    y ∈ l ∨ ∃ j ∈ l, y = f j := by
+  induction l with
+  | nil => simp [setInst] at hy
+  | cons a l ih =>
+    simp only [setInst] at hy
+    split at hy
+    · simp only [List.mem_cons] at hy
+      rcases hy with rfl | hy
+      · exact Or.inr ⟨a, List.mem_cons_self, rfl⟩
+      · exact Or.inl (List.mem_cons_of_mem _ hy)
+    · simp only [List.mem_cons] at hy
+      rcases hy with rfl | hy
+      · exact Or.inl List.mem_cons_self
+      · rcases ih hy with h1 | ⟨j, hj, rfl⟩
+        · exact Or.inl (List.mem_cons_of_mem _ h1)
+        · exact Or.inr ⟨j, List.mem_cons_of_mem _ hj, rfl⟩
+
+/-- the lemma `Controller.OnTimeout` silently relies on (it has no height check of its own):
+    `StartNewInstance` force-stops every other stored instance, `UponDecided` only ever creates or marks
+    DECIDED instances, so an instance that is not the one most recently started cannot act on a timeout -/
+def OthersQuiet (s : State) : Prop :=
+  ∀ i ∈ s.insts, s.running ≠ some i.height → i.stopped = true ∨ i.decided = true
+
+theorem othersQuiet_init (cap cutoff : Nat) : OthersQuiet (init cap cutoff) := by
+  intro i hi; simp [init] at hi
+
+theorem othersQuiet_step (s : State) (op : Op) (hq : OthersQuiet s) : OthersQuiet (step s op).1 := by
+  cases op with
+  | badTimeout => exact hq
+  | start h =>
+    simp only [step]
+    split
+    · exact hq
+    · split
+      · exact hq
+      · intro i hi hne
+        simp only [List.mem_map] at hi
+        obtain ⟨j, _, rfl⟩ := hi
+        by_cases hj : (j.height != h) = true
+        · simp [hj]
+        · simp only [hj] at hne ⊢
+          simp at hj
+          simp [hj] at hne
+  | decide h r =>
+    simp only [step]
+    intro i hi hne
+    simp only at hi hne
+    split at hi
+    · rcases mem_addNew _ _ _ _ hi with h1 | rfl
+      · exact hq i h1 hne
+      · exact Or.inr rfl
+    · split at hi
+      · exact hq i hi hne
+      · rcases mem_setInst _ _ _ _ hi with h1 | ⟨j, _, rfl⟩
+        · exact hq i h1 hne
+        · exact Or.inr rfl
+  | timeout h r =>
+    simp only [step]
+    split
+    · exact hq
+    · split
+      · exact hq
+      · split
+        · exact hq
+        · split
+          · exact hq
+          · intro i hi hne
+            simp only at hi hne
+            rcases mem_setInst _ _ _ _ hi with h1 | ⟨j, hj, rfl⟩
+            · exact hq i h1 hne
+            · exact hq j hj hne
+
+theorem othersQuiet_run (s : State) (ops : List Op) (hq : OthersQuiet s) : OthersQuiet (run s ops).1 := by
+  induction ops generalizing s with
+  | nil => exact hq
+  | cons x xs ih => exact ih _ (othersQuiet_step s x hq)
+
+theorem find_mem (l : List Inst) (h : Nat) (i : Inst) (hf : find l h = some i) : i ∈ l ∧ i.height = h := by
+  unfold find at hf
+  refine ⟨List.mem_of_find?_eq_some hf, ?_⟩
+  have := List.find?_some hf
+  simpa using this
+
 end Ctl
 
 end Ssv.Timer
